@@ -259,7 +259,7 @@ struct XorCase {
 
 fn xor_strategy() -> BS<XorCase> {
     let op = prop_oneof![3 => any::<u32>().prop_map(Op::SeekStart), 2 => (0u8..7, any::<i16>()).prop_map(|(w, d)| Op::SeekNear(w, d)), 4 => (0u16..5000).prop_map(Op::ReadExact), 2 => Just(Op::ReadU32), 2 => (0u16..40000).prop_map(Op::Read)];
-    (prop_oneof![4 => 1000u64..120_000, 2 => Just((1u64 << 32) + 100_000), 1 => Just((1u64 << 33) + 12_345)], proptest::option::weighted(0.85, prop_oneof![4 => Just(8usize), 1 => Just(1usize), 3 => 1usize..=64].prop_flat_map(|n| proptest::collection::vec(any::<u8>(), n))), prop_oneof![3 => Just(32768u16), 2 => 1u16..200, 1 => 200u16..40000], proptest::collection::vec(op, 1..60))
+    (prop_oneof![4 => 1000u64..120_000, 2 => Just((1u64 << 32) + 100_000), 1 => Just((1u64 << 33) + 12_345)], proptest::option::weighted(0.85, prop_oneof![8 => Just(8usize), 2 => Just(1usize), 6 => 1usize..=64, 1 => 65usize..=300, 1 => prop_oneof![Just(255usize), Just(256usize), Just(257usize), Just(4096usize), Just(32767usize), Just(32768usize), Just(32769usize), Just(70_001usize)]].prop_flat_map(|n| proptest::collection::vec(any::<u8>(), n))), prop_oneof![3 => Just(32768u16), 2 => 1u16..200, 1 => 200u16..40000], proptest::collection::vec(op, 1..60))
         .prop_map(|(len, key, bufcap, ops)| XorCase { len, key: key.unwrap_or_default(), bufcap, ops })
         .boxed()
 }
@@ -375,7 +375,7 @@ fn check_xor(c: &XorCase) -> Verdict {
             Err(p) => return Verdict::Fail(format!("XorReader panicked at op #{} {:?}: {}", k, op, panic_text(p))),
         }
     }
-    let mut classes = vec![format!("keylen={}", match c.key.len() { 0 => "none", 1 => "1", 8 => "8", 2..=7 => "2-7", _ => "9-64" })];
+    let mut classes = vec![format!("keylen={}", match c.key.len() { 0 => "none", 1 => "1", 8 => "8", 2..=7 => "2-7", 9..=64 => "9-64", _ => ">64" })];
     if back {
         classes.push("backward-seek".into());
     }
